@@ -23,6 +23,12 @@ INTERNAL_CODES = (-342, -343, -344, -345)
 NONJSON = [b'', b'<html><body>502 Bad Gateway</body></html>', b'{', b'{"result": 1,}', b'nul', b'{"result": 01}',
            b'[1, 2', b'{"error": {"code": -5}', b'\'result\'', b'{"result": 1} trailing', b'\xef\xbb\xbf{}x',
            b'1' * 5000 + b'x']
+# valid JSON that is not an object: `response.get` -> AttributeError (observation, not an "error reply")
+NONOBJ = [b'[]', b'[1, 2]', b'5', b'"text"', b'null', b'true', b'1.5', b'NaN', b'[{"error": null, "result": 1}]', b'-0']
+# not UTF-8: `.decode('utf8')` is outside the try -> UnicodeDecodeError (observation)
+NONUTF8 = [b'\xff\xfe{}', b'{"result": "\xff"}', b'\x80', b'{"result": 1}\xc3', b'\xc0\xaf']
+# error objects whose code is a JSON array/object: unhashable in Python
+UNHASHABLE = ['[1]', '[]', '{}', '{"a": 1}', '[-5]', '[[1]]']
 OTHERS = ['"server on fire"', '5', '0', '[1, 2]', 'true', 'false', '""', '-5', '1.5', '[]']
 
 
@@ -108,7 +114,9 @@ class C19(Prop):
         'amount_in_exact', 'amount_in_exact_int', 'hex_transport', 'transport_de', 'b2lx_is_core_form',
         'hash_roundtrip_bytes', 'hash_roundtrip_text', 'hash_roundtrip', 'lx_accepts', 'error_reply_raises',
         'class_of_int_code', 'class_of_registered', 'class_of_odd_codes', 'no_result_without_result',
-        'method_error_never_result', 'ids_gt_counter', 'ids_strictly_increase', 'ids_of_calls', 'amount_out_exact_partial')]
+        'method_error_never_result', 'ids_gt_counter', 'ids_strictly_increase', 'ids_of_calls', 'amount_out_exact_partial',
+        'unhashable_code_raises', 'non_reply_outcomes', 'amount_in_outcomes', 'amount_special_values',
+        'satoshis_denoted_sound', 'satoshis_denoted_complete', 'numeral_denotes_iff')]
     anchors = [('bitcoin/rpc.py', 'JSONRPCError.__new__'), ('bitcoin/rpc.py', 'BaseProxy._call'),
                ('bitcoin/rpc.py', 'BaseProxy._batch'), ('bitcoin/rpc.py', 'BaseProxy._get_response'),
                ('bitcoin/rpc.py', 'unhexlify_str'), ('bitcoin/rpc.py', 'hexlify_str'),
@@ -132,8 +140,11 @@ class C19(Prop):
     assumptions = ['send side: float(amount)/COIN and float.__repr__ are IEEE-754 round-to-nearest and shortest '
                    'round-trip repr; the theorem about the emitted text takes these as hypotheses (partial), the '
                    'correspondence run checks the emitted text with exact decimal arithmetic',
-                   'only replies that are JSON objects (or do not parse, or are missing) are in scope; a JSON body '
-                   'that is not an object, or is not UTF-8, is not an "error reply" (DESIGN §8 O4)']
+                   'a JSON body that is not an object (AttributeError) or not UTF-8 (UnicodeDecodeError), and NaN/'
+                   'Infinity/null where an amount is expected (ValueError/OverflowError/TypeError), are not "error '
+                   'replies": the model carries what the code does today as explicit outcomes and the run compares '
+                   'them strictly, but the property does not constrain them',
+                   'the decimal context is the default one (28 digits); int(r*COIN) uses the thread\'s ambient context']
     level = 'proof'
     rule = ('amounts 0, 1, 10^8±1, 21·10^14 and neighbours, d·10^j for every digit d and position j, digit-pattern '
             'amounts, random amounts in the money range — received through every amount-carrying Proxy method in '
@@ -259,6 +270,11 @@ class C19(Prop):
             if mine():
                 yield mk('c19.amountIn', self.IN_METHODS[n % len(self.IN_METHODS)], text, tag='amount-in-inexact')
 
+        for m in self.IN_METHODS:
+            for v in ('NaN', 'Infinity', '-Infinity', 'null', 'true', 'false'):
+                if mine():
+                    yield mk('c19.amountIn', m, v, tag='amount-in-special')
+
         # (b) amounts sent
         for n, k in enumerate(amounts):
             if mine():
@@ -333,6 +349,16 @@ class C19(Prop):
                     yield mk('c19.reply', m, 'nonjson=%d' % j, tag='reply-nonjson')
             if mine():
                 yield mk('c19.reply', m, 'none', tag='reply-none')
+            for j in range(len(NONOBJ)):
+                if mine():
+                    yield mk('c19.reply', m, 'nonobj=%d' % j, tag='reply-nonobject')
+            for j in range(len(NONUTF8)):
+                if mine():
+                    yield mk('c19.reply', m, 'nonutf8=%d' % j, tag='reply-nonutf8')
+            for j in range(len(UNHASHABLE)):
+                for res in ('absent', 'v=ignored'):
+                    if mine():
+                        yield mk('c19.reply', m, 'obj:dict=unhashable=%d:%s' % (j, res), tag='reply-unhashable-code')
         for m in ('call', 'raw'):
             for e in ('absent', 'null'):
                 for v in ('abc', '@null', '', 'x y'):
@@ -375,20 +401,26 @@ class C19(Prop):
             return p.getinfo()[method.split('.')[1]]
         raise ValueError(method)
 
-    def _amount_out(self, method, k):
+    def _emitted(self, method, k):
+        """the raw JSON token the proxy put into the request body for the amount"""
         p, conn = self.proxy()
         conn.script(ok_reply('"%s"' % ('33' * 32)))
         if method == 'sendtoaddress':
             p.sendtoaddress('addr', k)
-            v = conn.params()[1]
         else:
             p.sendmany('', {'addr': k})
-            v = conn.params()[1]['addr']
-        if isinstance(v, bool) or not isinstance(v, (int, Decimal)):
+        raw = json.loads(conn.requests[-1][2], parse_float=lambda t: ('num', t), parse_int=lambda t: ('num', t),
+                         parse_constant=lambda t: ('const', t))['params']
+        v = raw[1] if method == 'sendtoaddress' else raw[1]['addr']
+        return v
+
+    def _amount_out(self, method, k):
+        v = self._emitted(method, k)
+        if not (isinstance(v, tuple) and v[0] == 'num'):
             return 'not-a-number:%r' % (v,)
-        sat = Fraction(v) * COIN               # exact: Fraction(Decimal) and Fraction(int) are exact
+        sat = Fraction(Decimal(v[1])) * COIN   # exact
         if sat.denominator != 1:
-            return 'inexact:%s' % v
+            return 'inexact'
         return str(sat.numerator)
 
     def _chain(self, kind, s):
@@ -479,6 +511,10 @@ class C19(Prop):
             return None
         if spec.startswith('nonjson='):
             return (NONJSON[int(spec[8:])], 500, 'Internal Server Error')
+        if spec.startswith('nonobj='):
+            return NONOBJ[int(spec[7:])]
+        if spec.startswith('nonutf8='):
+            return NONUTF8[int(spec[8:])]
         _, e, r = spec.split(':')
         members = []
         if r != 'absent':
@@ -497,6 +533,8 @@ class C19(Prop):
                 inner.append('"code": %s' % c)
             elif c == 'str':
                 inner.append('"code": "-5"')
+            elif c.startswith('unhashable='):
+                inner.append('"code": %s' % UNHASHABLE[int(c[11:])])
             members.append('"error": {%s}' % ', '.join(inner))
         members.append('"id": 1')
         return ('{%s}' % ', '.join(members)).encode()
@@ -537,6 +575,8 @@ class C19(Prop):
                 cs = 'dec'
             elif code is None:
                 cs = 'null'
+            elif isinstance(code, (list, dict)):
+                cs = 'unhashable'
             else:
                 cs = 'str'
             return 'raise:%s:%s' % (type(e).__name__, cs)
@@ -558,7 +598,8 @@ class C19(Prop):
         out = []
         for (_, _, body, _) in conn.requests:
             j = json.loads(body)
-            out.append(str(j['id']) if isinstance(j, dict) else 'b')
+            if isinstance(j, dict):          # a `_call` request; batch bodies carry the caller's ids
+                out.append(str(j['id']))
         return ','.join(out)
 
     def impl(self, c):
@@ -592,7 +633,26 @@ class C19(Prop):
             return guarded(lambda: self._ids(a[0].split(',')))
         raise ValueError(op)
 
+    def model_line(self, c):
+        if c['op'] == 'c19.amountOut':
+            try:
+                v = self._emitted(c['args'][0], int(c['args'][1]))
+                text = v[1] if isinstance(v, tuple) and v[0] == 'num' else 'not-a-number'
+            except Exception:  # noqa: BLE001
+                text = 'not-a-number'
+            return '\t'.join(['c19.amountOut', c['args'][0], c['args'][1], text])
+        return c.line
+
+    def signature(self, c, io, mo):
+        if c['op'] == 'c19.reply' and 'dict=unhashable=' in c['args'][1] and io == 'err:py:TypeError' \
+                and mo.startswith('raise:'):
+            return 'D19-rpc-unhashable-error-code-typeerror'
+        return None
+
     def agree(self, c, io, mo):
+        if c['op'] == 'c19.amountOut':
+            # Python's exact reading of the emitted text, the model's (Model.Rpc.satoshisDenoted), and the amount
+            return io == mo == c['args'][1]
         if io == mo:
             return True
         op = c['op']
